@@ -15,6 +15,9 @@ ok, log = m.coq_build()
 print(log[-3000:])
 if not ok:
     print("coq build FAILED"); sys.exit(1)
+bad = m.gate()
+if bad:
+    print("GATE FAILED:", bad); sys.exit(1)
 ok, log = m.harness_build(m.all_driver_pkgs())
 print(log[-3000:])
 if not ok:
